@@ -70,7 +70,22 @@ def routing_case(ctx, case, monitors):
     # TorchRL mode (step() keeps the caller's state and returns the new one under "next"), driven with look-ahead probes: before
     # every real move another admitted action is stepped from the same retained state and discarded
     env, O = envzoo.make(dict(cfg, torchrl=True) if case.get("torchrl") else cfg)
-    td_in = envzoo.instances(env, cfg, family, B, seed)
+    if case.get("inst_n"):
+        # instances of another size than the env was constructed for (generalisation runs): made by a sibling env of that size
+        cfg_i = dict(cfg, n=case["inst_n"])
+        env_i, _ = envzoo.make(cfg_i)
+        td_in = envzoo.instances(env_i, cfg_i, family, B, seed)
+        ctx.count("other_size_instance_cases")
+        try:
+            probe = env.reset(td_in.clone())
+            if "locs" in probe.keys() and probe["locs"].dim() == 3 and probe["action_mask"].shape[-1] != probe["locs"].shape[1]:
+                ctx.count("other_size_unsupported_by_env")  # reset state sized from the generator: not a supported input
+                return
+        except Exception:
+            ctx.count("other_size_unsupported_by_env")
+            return
+    else:
+        td_in = envzoo.instances(env, cfg, family, B, seed)
     gen = torch.Generator().manual_seed(seed)
     names = envzoo.chooser_mix(B, seed) if case.get("choosers", "mix") == "mix" else [case["choosers"]] * B
     # bound for the driver: generous multiple of the oracle's bound so that a hung episode is observed, not awaited
@@ -79,9 +94,9 @@ def routing_case(ctx, case, monitors):
     if case.get("reuse"):
         # the same instance object is decoded twice without cloning (evaluate a batch, then evaluate it again): the first
         # episode must leave nothing behind in it; the monitors below watch the SECOND episode
-        run_episode(env, td_in, list(reversed(names)), torch.Generator().manual_seed(seed + 1), max_steps=case.get("max_steps", 6 * cfg["n"] + 30), clone_input=False)
+        run_episode(env, td_in, list(reversed(names)), torch.Generator().manual_seed(seed + 1), max_steps=case.get("max_steps", 6 * max(cfg["n"], case.get("inst_n") or 0) + 30), clone_input=False)
         ctx.count("reused_instance_objects")
-    ep = run_episode(env, td_in, names, gen, max_steps=case.get("max_steps", 6 * cfg["n"] + 30), clone_input=not case.get("reuse"), peek="last_true" if case.get("torchrl") else None)
+    ep = run_episode(env, td_in, names, gen, max_steps=case.get("max_steps", 6 * max(cfg["n"], case.get("inst_n") or 0) + 30), clone_input=not case.get("reuse"), peek="last_true" if case.get("torchrl") else None)
     if case.get("torchrl"):
         ctx.count("torchrl_mode_episodes")
         ctx.count("torchrl_lookahead_probes", getattr(ep, "peeks", 0))
